@@ -371,13 +371,26 @@ SC_SRV_FAULTS = ["inuse", "proto", "badaddr"]
 SC_TLS_FAULTS = ["nocert", "certonly", "keyonly", "certmissing", "certgarbage", "mismatch", "camissing", "cagarbage",
                  "vccnoca"]
 # faults that are NOT errors for the item they are attached to (the oracle must not demand an error)
+SC_RTR_SRVS = ["udp", "udp1", "udp2", "tcp", "gnet", "http", "fasthttp", "tls", "https", "quic"]
+SC_CLIENTS = {"m": ["idle", "mid"], "tcp": ["idle", "mid"], "gnet": ["idle", "mid"], "http": ["idle", "mid"],
+              "fasthttp": ["idle", "mid"], "tls": ["idle", "hs", "mid"], "https": ["idle", "hs", "mid"],
+              "quic": ["idle", "mid"]}
+
+
 def _sc_is_error(comp, kind, fault):
+    """kind may carry the +rp suffix (socket.so_reuseport configured explicitly)"""
     if not fault:
         return False
+    rp = kind.endswith("+rp")
+    kind = kind[:-3] if rp else kind
     if comp == "u" and fault in SC_UP_ACCEPTED:
         return False
     if comp == "s" and fault in SC_TLS_FAULTS and kind not in SC_TLS_SRVS:
         return False
+    if fault == "rtr":
+        # the address is held by another instance of the router: "address in use" must be reported unless
+        # so_reuseport is configured explicitly (quic listeners take no socket options and always refuse)
+        return not (rp and kind != "quic")
     return True
 
 
@@ -387,6 +400,7 @@ def _sc_items(cfg):
         if not it:
             continue
         body, _, fault = it.partition("!")
+        body, _, _client = body.partition("@")
         comp, _, kind = body.partition(":")
         out.append((comp, kind, fault))
     return out
@@ -445,6 +459,32 @@ def startcfg_gen(rng, tier):
                   ["s:udp!proto"], ["u:udp!scheme", "s:udp"], ["s:tls!mismatch"], ["u:tls!camissing", "s:udp"],
                   ["s:udp", "s:quic!nocert"]):
         add(items, mode="bin")
+    # (7) "address in use" where the holder is ANOTHER INSTANCE of the router: same process (a second run() while the
+    #     first router is up) and a second process (the real binary twice); every listener kind, udp with threads
+    #     unset / 1 / 2, with and without socket.so_reuseport
+    for k in SC_RTR_SRVS:
+        for rp in ("", "+rp"):
+            add(["s:%s%s!rtr" % (k, rp)])
+        pre = ["m"] if rng.random() < 0.5 else []
+        pre += ["u:%s" % rng.choice(["quic", "h3", "udp"])]
+        pre += ["s:%s" % o for o in rng.sample(SC_SRVS, rng.randint(1, 2))]
+        add(pre + ["s:%s!rtr" % k])
+    add(["m!rtr", "s:udp"])
+    add(["m!rtr", "u:quic", "c:mem", "s:tcp"])
+    for items in (["s:udp!rtr"], ["s:udp1!rtr"], ["s:udp+rp!rtr"], ["s:tcp!rtr"], ["s:quic!rtr"], ["m!rtr", "s:udp"],
+                  ["s:udp", "s:gnet!rtr"]):
+        add(items, mode="bin")
+    # (8) a client is connected / in the middle of a handshake / of a request on an endpoint when the router is closed:
+    #     close returns promptly and nothing is left, for every closable endpoint
+    for k, states in SC_CLIENTS.items():
+        for st in states:
+            ep = "m@%s" % st if k == "m" else "s:%s@%s" % (k, st)
+            add([ep] if k != "m" else [ep, "s:udp"])
+            # the endpoint with the client in FRONT of other listeners (closers are called in order)
+            others = ["s:%s" % o for o in rng.sample(["udp", "tcp", "http", "tls", "quic"], 2)]
+            add(([ep] + others) if k == "m" else (["m", ep] + others))
+    add(["m@mid", "s:tcp@mid", "s:gnet@idle", "s:http@mid", "s:tls@hs", "s:https@mid", "s:quic@mid", "s:udp"])
+    add(["m@idle", "u:quic", "c:mem", "s:fasthttp@mid", "s:tcp@idle", "s:https@hs"])
     # (6) random configurations with at most one fault
     reps = budget(tier, 25, 800)
     for _ in range(reps):
@@ -505,6 +545,9 @@ def startcfg_classify(line, res):
     faulty = [(c, k, fl) for (c, k, fl) in items if fl]
     mode = f.get("mode", "inproc")
     if not faulty:
+        cl = sorted(it.partition("!")[0] for it in f["cfg"].split(";") if "@" in it)
+        if cl:
+            return mode + "/valid/client:" + ",".join(cl[:3]) + ("/first" if "@" in f["cfg"].split(";")[0] else "")
         return mode + "/valid"
     c, k, fl = faulty[0]
     pos = items.index(faulty[0])
@@ -660,7 +703,12 @@ PROPS["C18"] = dict(
          "file, bad redis url) at every kind, first in the list and behind components that already hold sockets or "
          "goroutines; one child process per case, run() three times: error reported, sockets / other fds / goroutines "
          "left over per run (garbage collection off so that unreachable sockets stay visible); a few through the real "
-         "binary (exit status); compared with the init programs of Router/StartupInit.v; "
+         "binary (exit status); 'address in use' with the address held by ANOTHER INSTANCE of the router (a second "
+         "run() in the process, the real binary twice) for the metrics endpoint and every listener kind incl. udp "
+         "with threads unset / 1 / 2, with and without socket.so_reuseport; valid configurations closed while a "
+         "client is connected / in the middle of a TLS handshake / of a request on each closable endpoint (metrics, "
+         "tcp, gnet, http, fasthttp, tls, https, quic), first and behind other closers: close within 3 s (a hang is a "
+         "VIOLATION) and nothing left; compared with the init programs of Router/StartupInit.v; "
          "startup: failing listener at every position of a list holding all 8 listener kinds (port in use, "
          "unknown protocol, bad certificate path, bad address), failing upstream / domain set / rule / cache / "
          "metrics listener, in-process and through the real binary; distinct = distinct case line",
@@ -669,7 +717,8 @@ PROPS["C18"] = dict(
                  "injected dialers honour context cancellation (dm=honour) or complete late (dm=ignore)"],
     trusted=["C18: the init programs (si_prog_of: order of checks, acquisitions and the release on each error path) "
              "and the fault -> failing statement table (si_fault_stmt) are read off app/router by hand and tied to the "
-             "code by kind startcfg; goroutines of fasthttp's worker-pool cleaner (10 s sleep) are not counted",
+             "code by kind startcfg; goroutines of fasthttp's worker-pool cleaner (10 s sleep) are not counted; which closer "
+             "waits for its peers (si_closer_wait) is read off the code and timed by the harness (router close <= 3 s)",
              "C18: which parts an upstream owns and which its Close names (uo_owned, uo_close_prog) is read off "
              "upstream.go by hand and tied to the code by kind upown; the library parts (connTracker, quic.Transport, "
              "UDP socket) are counters, not models of net/http / quic-go",
